@@ -188,9 +188,9 @@ def register(w):
                 "rfile": "obj:RFile", "wfile": "obj:WFile", "config": "obj:Config"},
         ghost={"conn_headers": "dict[str,str]"},
         requires=["rfile.pos <= len(rfile.content)"],
-        raises={},
-        ensures=[
-            "result is not None",
+        raises={}, returns="obj:AnyProtocol",
+        ensures=["result is not None"],
+        ensures_internal=[
             "type(result).__name__ == S.first_matching(%r, request, S.tls_conn(requesthandler), config.get('protocols.wap.WAPProtocol', 'waptop'), ghost.conn_headers)" % (order,),
             "result.request == request",
         ],
@@ -236,3 +236,52 @@ def register(w):
         return (not bad, bad or "all %d protocol classes are under contract; secure flags are literals" % len(known))
 
     w.astcheck("C02.ast.protocol-classes-under-contract", ["C02"], secure_flags)
+    register_generic(w)
+
+
+IFACE_P = '''
+class AnyProtocolClass:
+    """Interface of an arbitrary protocol class taken from a configured protocol list."""
+    def __init__(self, request, server, requesthandler, rfile, wfile, config):
+        pass
+    def canhandlerequest(self):
+        pass
+'''
+
+
+def register_generic(w):
+    """getProtocol for an ARBITRARY configured protocol list: the first protocol whose own test accepts wins,
+    and nothing is returned when none accepts."""
+    from pyvc.extract import ClassInfo, FuncInfo
+    tree = ast.parse(IFACE_P)
+    ci = ClassInfo("iface", tree.body[0])
+    w.repo.classes.setdefault("AnyProtocolClass", []).append(ci)
+    for m in ci.methods.values():
+        fi = FuncInfo("iface", "AnyProtocolClass", m, ast.get_source_segment(IFACE_P, m))
+        w.repo.funcs[fi.qualname] = fi
+    w.fields("AnyProtocolClass", request="str", accepts="ghost:bool")
+    w.contract("iface::AnyProtocolClass.__init__",
+               params={"request": "str", "server": "obj:Server", "requesthandler": "obj:RequestHandler", "rfile": "obj:RFile", "wfile": "obj:WFile", "config": "obj:Config"},
+               modifies=["self.*"], raises={}, assumed=True, ensures=["self.request == request"],
+               note="interface: BaseGopherProtocol.__init__ (verified per class) stores the request", props=["C02"])
+    w.contract("iface::AnyProtocolClass.canhandlerequest", modifies=["ghost.naccepted"], raises={}, returns="bool", assumed=True,
+               ghost={"naccepted": "int"},
+               ensures=["result == self.accepts", "ghost.naccepted == old(ghost.naccepted) + (1 if self.accepts else 0)"],
+               note="interface: each class's canhandlerequest is a total predicate (verified per class: raises nothing, result == proto_matches(...)); naccepted counts acceptances (ghost)",
+               props=["C02"])
+
+    def setup(eng, fr):
+        eng.ghost["naccepted"] = VInt(0)
+
+    w.contract(
+        P + "ProtocolMultiplexer.py::getProtocol", selfclass=["<any-list>"], label="getProtocol[any protocol list]",
+        params={"request": "str", "server": "obj:Server", "requesthandler": "obj:RequestHandler",
+                "rfile": "obj:RFile", "wfile": "obj:WFile", "config": "obj:Config"},
+        ghost={"naccepted": "int"}, setup=setup,
+        raises={},
+        ensures=["(result is None and ghost.naccepted == 0) or (result is not None and result.accepts and ghost.naccepted == 1)",
+                 "implies(result is not None, result.request == request)"],
+        loops={0: dict(invariant=["ghost.naccepted == 0"], havoc_ghost=["naccepted"])},
+        opts={"cfgeval:protocols.ProtocolMultiplexer/protocols": "list[class:AnyProtocolClass]"},
+        note="arbitrary list and order: first match wins (exactly one acceptance has been seen when a protocol is returned), None iff nobody accepts",
+        props=["C02"])
